@@ -24,7 +24,7 @@
 (***************************************************************************)
 EXTENDS Integers, FiniteSets
 
-NoObj == "none"
+NoObj == <<"none", 0>>   \* same shape as an object <<id, version>>
 
 Present(s, id) == s.map[id] # NoObj
 Alive(s, id)   == Present(s, id) /\ s.exp[s.map[id]] = "live"
